@@ -315,9 +315,133 @@ def map_scenario(ltype, wk, wmv, xk, bk):
   return scenario
 
 
+def fused_scenario(ltype, xk, bk):
+  """Kernel quantizer quantized_bits(alpha='auto_po2') that has been called: q.scale holds one power of two per output
+  channel (two channels, exponents t0, t1 symbolic).  Real weights of channel c are q.scale[c] * (code * step); the
+  map's fused_accumulator entry must hold every pre-activation of every channel."""
+  rank, nidx = LAYERS[ltype]
+
+  def scenario(ip):
+    from pyvc import lib as L
+    s = Scen()
+    bits, integer = z3.Int("w_bits"), z3.Int("w_int")
+    s.vars["w_bits"], s.vars["w_int"] = bits, integer
+    ip.assume(z3.And(bits >= 2, integer >= 0))
+    nw = bits - 1
+    qz = ip.get_module("qkeras.quantizers")
+    wq = ip.call(ip.getattr(qz, "quantized_bits"), [SNum(bits), SNum(integer), 1, 1], {"alpha": "auto_po2"})
+    t0, t1 = z3.Int("t0"), z3.Int("t1")
+    s.vars["t0"], s.vars["t1"] = t0, t1
+    ip.setattr(wq, "scale", L.NDList([SNum(I.POW2(t0), "float"), SNum(I.POW2(t1), "float")]))
+    s.hints.extend([t0, t1, -t0, -t1])
+    # symmetric code range of the auto-scaled quantizer: |code| <= 2^n - 1
+    wl = S.Fixed(nw - integer, -(I.IPOW2(nw) - 1), I.IPOW2(nw) - 1, nw, z3.IntVal(1))
+    wl.symmetric = True
+    xq, _, xl = Q.make_qkeras(ip, s, "x", xk, None)
+    if bk is None:
+      bq, bl = None, None
+    else:
+      bq, _, bl = Q.make_qkeras(ip, s, "b", bk, None)
+    for pfx_, k_ in (("x", xk), ("b", bk)):
+      if k_ == "qbits":
+        ip.assume(s.vars[pfx_ + "_bits"] - s.vars[pfx_ + "_signed"] >= 1)
+    dims = []
+    for i in range(rank):
+      d = z3.Int("d%d" % i)
+      ip.assume(d >= 1)
+      s.vars["d%d" % i] = d
+      dims.append(SNum(d, "int"))
+    kernel = Obj(ExtClass("ndarray"), {"shape": tuple(dims)}, label="kernel")
+    bias = Obj(ExtClass("ndarray"), {"shape": (dims[-1],)}, label="bias")
+    weights = [kernel] + ([bias] if bk is not None else [])
+    layer = Obj(ExtClass(ltype), {
+        "name": "layer0", "use_bias": bk is not None,
+        "get_quantizers": Builtin("get_quantizers", lambda ip_: [wq, bq]),
+        "get_weights": Builtin("get_weights", lambda ip_: list(weights)),
+        "output_shape": (None, dims[-1]),
+    }, label=ltype)
+    g = build_graph(ip, ltype, layer, xq, (None, dims[0]))
+    mod = ip.get_module("qkeras.qtools.generate_layer_data_type_map")
+    ip.setattr(ip.get_module("qkeras.qtools.qtools_util"), "get_operation_count",
+               Builtin("get_operation_count", lambda ip_, l, shp: 0))
+    r = run_call(ip, mod.env.vars["generate_layer_data_type_map"], [g, [], False])
+    s.claim("no_raise", r[0] == "return")
+    if r[0] != "return":
+      s.info["raised"] = str(r[1])
+      return s
+    lmap = r[1]["layer_data_type_map"]
+    if layer not in lmap or "fused_accumulator" not in lmap[layer]:
+      s.claim("fused_entry", False)
+      return s
+    ent = lmap[layer]
+    fused = ent["fused_accumulator"]
+    s.claim("fused_entry", fused is not ent["accumulator"])
+    s.replay = {"layer": ltype, "xk": xk, "bk": bk, "fused": True}
+    al = Q.type_lattice(ip, ip.getattr(fused, "output"), s)
+    if al.kind == "float":
+      s.claim("fused_preact_fits", False)
+      return s
+    n = z3.Int("N")
+    prod = z3.IntVal(1)
+    for i in nidx:
+      prod = prod * dims[i].e
+    ip.assume(n == prod)
+    s.vars["N"] = n
+    lg = z3.Int("LGN")
+    ip.assume(z3.And(lg >= 0, z3.ToReal(n) <= I.POW2(lg), z3.Or(lg == 0, I.POW2(lg - 1) < z3.ToReal(n))))
+    s.vars["LGN"] = lg
+    s.hints.extend([lg, lg - 1])
+    full = z3.ToReal(n) == I.POW2(lg)
+    xlo, xhi, xres = lo_cases(xl)
+    iw = wl.n - wl.f
+    wlo = [(z3.BoolVal(True), PolyB([(-1, iw), (1, -wl.f)]))]         # -(2^i - 2^-f)
+    whi = PolyB([(1, iw), (-1, -wl.f)])
+    res_goals, rng_goals = [], []
+    for c, t in ((0, t0), (1, t1)):
+      total = z3.Real("sum%d" % c)
+      s.vars["sum%d" % c] = total
+      ups, downs = [total <= 0], [total >= 0]
+      for gw, pw in wlo + [(z3.BoolVal(True), whi)]:
+        for gx, px in xlo + [(z3.BoolVal(True), xhi)]:
+          corner = pw.mul(px).shift(t)          # scaled by the channel's power-of-two scale
+          kc = corner.shift(lg).expr() - z3.If(full, z3.RealVal(0), corner.expr())
+          ups.append(z3.And(gw, gx, total <= kc))
+          downs.append(z3.And(gw, gx, total >= kc))
+          s.hints.extend(corner.exps() + corner.shift(lg).exps())
+      ip.assume(z3.Or(*ups))
+      ip.assume(z3.Or(*downs))
+      pre = total
+      res_terms = [-wl.f + xres + t]
+      if bk is not None:
+        blo, bhi, bres = lo_cases(bl)
+        b = z3.Real("bias%d" % c)
+        s.vars["bias%d" % c] = b
+        ip.assume(z3.Or(*[z3.And(gb, b >= pb.expr()) for gb, pb in blo]))
+        ip.assume(b <= bhi.expr())
+        pre = total + b
+        res_terms.append(bres)
+        for _, pb in blo:
+          s.hints.extend(pb.exps())
+        s.hints.extend(bhi.exps())
+      for rt in res_terms:
+        r_ok, rng, hints = S.range_fits(pre, pre, rt, al)
+        res_goals.append(r_ok)
+        s.hints.extend(hints)
+      rng_goals.append(rng)
+    if xl.kind == "fixed":
+      s.hints.extend([xl.n - xl.f, -xl.f, xl.n])
+    s.hints.extend([iw, -wl.f, wl.n])
+    s.claim("fused_preact_res", z3.And(*res_goals))
+    s.claim("fused_preact_fits", z3.And(*rng_goals))
+    return s
+  return scenario
+
+
 def bounds(vars_):
   cs = []
   for k, v in vars_.items():
+    if k in ("t0", "t1"):
+      cs.append(z3.And(v >= -4, v <= 4))
     if k.endswith("_bits") or k.endswith("_int"):
       cs.append(v <= 5)
     elif k.endswith("_mvexp"):
@@ -344,6 +468,13 @@ def cases(tier):
       name = "%s_%s%s_x_%s_bias-%s" % (lt, wk, "" if wmv is None else "-mv" + wmv, xk, bk or "none")
       out.append(Case(PROP, GM, name, map_scenario(lt, wk, wmv, xk, bk), bounds=bounds,
                       replay_kind="c18_map", assumptions=ASSUME))
+  for lt in ("QDense", "QConv2D"):
+    for xk in ("qbits", "qrelu"):
+      for bk in ("qbits", None):
+        if tier != "thorough" and (lt, xk) != ("QDense", "qbits"):
+          continue
+        out.append(Case(PROP, GM, "%s_auto-po2-kernel_x_%s_bias-%s" % (lt, xk, bk or "none"), fused_scenario(lt, xk, bk),
+                        bounds=bounds, replay_kind="c18_fused", assumptions=ASSUME))
   out.extend(analyze_cases(tier))
   return out
 
